@@ -212,6 +212,11 @@ Definition doc_inputs (o : oracles) (prefix : str) (d : cdoc) : option (list inp
   | None => None
   end.
 
+(* static guard on the referenced members: inside each of them no two property names collide after snake-casing
+   (then each member hands its properties on with their default python names) *)
+Definition g_parents (prefix : str) (d : cdoc) : bool :=
+  forallb (fun s : schema => g_no_raw_fallback prefix (dedup (map fst (fst s)))) (c_parents d).
+
 (* what the oracle of the check asks about an observed failure: does the unchanged algorithm itself produce a duplicate? *)
 Definition has_dup_py (r : pres (list inp)) : bool :=
   match r with POk l => negb (nodupb (map i_py l)) | _ => false end.
